@@ -225,7 +225,7 @@ def setup(concepts, spec):
 
 
 def cases(tier, seed, spec):
-    yield from gen.biglat(tier, sizes=(15,), quick_sizes=(14,))
+    yield from gen.biglat(tier, sizes=(15, 17), quick_sizes=(14,))
     yield from gen.ctx_stream(tier, seed)
 
 
@@ -240,7 +240,7 @@ def run_case(concepts, case, spec):
     sh = attach.shadow_of(ctx)
     cap = CAP[spec['tier']]
     if case['fam'].startswith('BIGLAT'):
-        sh.cap_override = 70000
+        sh.cap_override = 140000
         COL.count('biglat_cases')
     sl = sh.lattice(cap)
     lat = common.get_lattice(ctx)
@@ -255,6 +255,16 @@ def run_case(concepts, case, spec):
         pairs = [(a, b) for a in range(n) for b in range(n)]
     else:
         pairs = [(rng.randrange(n), rng.randrange(n)) for _ in range(600 if thorough else 400)]
+        # pairs whose indexes differ by a power of two in one position and by one in the other: what a
+        # pair of indexes packed into one machine word (i << k | j) cannot tell apart
+        for width in (8, 16):
+            if n > (1 << width) + 4:
+                for _ in range(40 if width == 8 else 150):
+                    i = rng.randrange(n - 2)
+                    r = rng.randrange(n - (1 << width) - 1)
+                    quad = [(i, r + (1 << width)), (i + 1, r), (i, r), (i + 1, r + (1 << width))]
+                    pairs += quad + [(b, a) for a, b in quad]
+                COL.count('index_straddling_pair_families_width_%d' % width)
     for x, (a, b) in enumerate(pairs):
         ca, cb = members[a], members[b]
         if x % 2:
